@@ -62,6 +62,20 @@ func (e *Env) modTargets(m ModSpec) []modTarget {
 		if v.Go == nil {
 			trFail("modifies %s: unsupported", m.Src)
 		}
+		if v.Loc != nil {
+			if at, ok := v.Loc.T.Underlying().(*types.Array); ok && v.Loc.Idx == nil {
+				// all elements of an array-typed field
+				leaves := map[string]bool{}
+				e.vc.leafHeaps(v.Loc.Path+"[]", at.Elem(), leaves)
+				base := v.Loc.Base
+				var out []modTarget
+				for _, ln := range sortedKeys(leaves) {
+					lt := e.vc.leafType(at.Elem(), strings.TrimPrefix(ln, v.Loc.Path+"[]"))
+					out = append(out, modTarget{ln, ArraySort(SRef, ArraySort(SInt, e.vc.sortOf(lt))), &base})
+				}
+				return out
+			}
+		}
 		switch u := v.Go.Underlying().(type) {
 		case *types.Slice:
 			leaves := map[string]bool{}
@@ -185,6 +199,8 @@ func (vc *FuncVC) staticModNames(sp *FuncSpec, sig *types.Signature, hasRecv boo
 				if i == len(fields)-1 {
 					if elems {
 						switch u := ft.Underlying().(type) {
+						case *types.Array:
+							vc.leafHeaps(base+"."+f+"[]", u.Elem(), out)
 						case *types.Slice:
 							vc.leafHeaps("[]"+typeKey(u.Elem()), u.Elem(), out)
 						case *types.Map:
